@@ -163,7 +163,8 @@ func c04names(n int) []string {
 	return out
 }
 
-// c04enum: tree number t of size n, variant v (0 plain, 1 authenticated edges + shared commands),
+// c04enum: tree number t of size n, variant v (0 plain, 1 authenticated edges asking on alternate
+// levels + shared commands, 2 every edge authenticated and asking),
 // one session that acquires along a tour covering all n*n (current, target) pairs.
 func c04enum(n, t, v int, trees [][]int) c04case {
 	cs := c04case{kind: "enum", line: fmt.Sprintf("c04enum %d %d %d", n, t, v), indom: true}
@@ -171,6 +172,9 @@ func c04enum(n, t, v int, trees [][]int) c04case {
 	names := c04names(n)
 	if v == 0 {
 		cs.levels = c04build(par, names, 0, func(int) (bool, bool) { return false, false })
+	} else if v == 2 {
+		cs.secret = "pw 2"
+		cs.levels = c04build(par, names, 0, func(i int) (bool, bool) { return true, true })
 	} else {
 		cs.secret = "s3cret!"
 		cs.levels = c04build(par, names, 1, func(i int) (bool, bool) { return true, (i+t)%2 == 0 })
@@ -734,8 +738,8 @@ func runC04(c *ctx) {
 		trees := c04trees(n)
 		total += len(trees)
 		for t := range trees {
-			for v := 0; v < 2; v++ {
-				if n == 1 && v == 1 {
+			for v := 0; v < 3; v++ {
+				if n == 1 && v >= 1 {
 					continue
 				}
 				cases = append(cases, c04enum(n, t, v, trees))
@@ -743,18 +747,18 @@ func runC04(c *ctx) {
 		}
 	}
 	res.Exhaustive = true
-	res.ExhaustiveOf = fmt.Sprintf("all %d rooted labelled trees with <= %d levels x all (current,target) pairs (tour) x {plain, authenticated}", total, maxN)
-	nr := c.n(260, 6000)
+	res.ExhaustiveOf = fmt.Sprintf("all %d rooted labelled trees with <= %d levels x all (current,target) pairs (tour) x {plain, authenticated edges asking on alternate levels + shared commands, every edge asking}", total, maxN)
+	nr := c.n(1200, 12000)
 	for i := 0; i < nr; i++ {
 		cases = append(cases, c04random(c.rng.U64(), 9, 12, "rand"))
 	}
-	for i := c.n(60, 1000); i > 0; i-- {
+	for i := c.n(200, 2000); i > 0; i-- {
 		cases = append(cases, c04ios(c.rng.U64(), 12))
 	}
-	for i := c.n(40, 600); i > 0; i-- {
+	for i := c.n(150, 1500); i > 0; i-- {
 		cases = append(cases, c04random(c.rng.U64(), 6, 8, "stale"))
 	}
-	for i := c.n(12, 200); i > 0; i-- {
+	for i := c.n(30, 300); i > 0; i-- {
 		cases = append(cases, c04random(c.rng.U64(), 5, 4, "ambiguous"))
 	}
 	c04check(c, cases)
